@@ -549,6 +549,9 @@ class Weaver:
             return t.text, 0
         if t.text == "self" and getattr(self, "_self_rename", False):
             return "self_", 0
+        if unit is not None and getattr(unit, "idents", None) and t.text in unit.idents and not (toks[i - 1].kind == "p" and toks[i - 1].text in (".", "::")) and toks[i + 1].text != "::":
+            fired("R23:ident-rename")
+            return unit.idents[t.text], 0
         if t.text == "Self" and unit is not None and getattr(unit, "assoc", None) and toks[i + 1].text == "::" and toks[i + 2].text in unit.assoc:
             fired("R21:assoc-type")
             return expand(unit.assoc[toks[i + 2].text], ctx), 2
